@@ -392,7 +392,21 @@ func (req *SrvReq) Respond() {
 	}
 
 	verifPoint("respond.claimed", req)
-	/* remove the request and all requests flushing it */
+	if rop, ok := (req.Conn.Srv.ops).(SrvReqProcessOps); ok {
+		rop.SrvReqRespond(req)
+	} else {
+		req.PostProcess()
+	}
+
+	verifPoint("respond.posted", req)
+	if (status & reqFlush) == 0 {
+		conn.reqout <- req
+	}
+
+	verifPoint("respond.queued", req)
+	/* remove the request and all requests flushing it. The request stays
+	 * in conn.reqs until its response is queued: a Tflush that no longer
+	 * finds it must not be answered before the request's own response */
 	conn.Lock()
 	nextreq := req.prev
 	if nextreq != nil {
@@ -419,18 +433,6 @@ func (req *SrvReq) Respond() {
 	conn.Unlock()
 	verifPoint("respond.unlinked", req)
 
-	if rop, ok := (req.Conn.Srv.ops).(SrvReqProcessOps); ok {
-		rop.SrvReqRespond(req)
-	} else {
-		req.PostProcess()
-	}
-
-	verifPoint("respond.posted", req)
-	if (status & reqFlush) == 0 {
-		conn.reqout <- req
-	}
-
-	verifPoint("respond.queued", req)
 	// process the next request with the same tag (if available)
 	if nextreq != nil {
 		go nextreq.process()
